@@ -49,7 +49,8 @@ def _forms(b, l):
         if r[0] == "stmt" and "use" in r[3]["rv"]:
             out.append((r[1], norm(b.expr(r[3]["rv"]["use"]))))
         elif r[0] == "call":
-            out.append((r[1], "call:" + str(callee_method(r[2]))))
+            t_ = r[2]
+            out.append((r[1], norm("%s(%s)" % (callee_method(t_), ", ".join(b.expr(a) for a in t_["args"])))))
         elif r[0] == "stmt":
             out.append((r[1], "?"))
     return out
